@@ -79,3 +79,123 @@ Definition document (g : graph) (root : list item) : res (option (list N)) :=
 (* drawing-time references with the in-progress set *)
 Definition draw_refs (g : graph) (its : list item) : res (option (list N)) :=
   expand false g (fuel_for g) [] its.
+
+(* ------------------------------------------------------------------ *)
+(* Instances of <use>: what one <use x y [width height] [stroke stroke-width]
+   href="#id"> draws (elements.go:412-529 resolveUse + use.draw, 301-327
+   svg.draw, paint.go:84-107 applyPainters).
+
+   resolveUse works on a COPY of the referenced element (cascadedNode.copy:
+   the attribute map is duplicated): on the copy, when the element is an <svg>
+   or a <symbol> and the <use> carries both width and height, these replace the
+   element's own; then every inherited attribute of the <use> the element does
+   not specify itself is added (here: stroke, stroke-width).  The definition is
+   left as it was, so an instance is a function of the definitions and of its
+   own attributes only.
+
+   Drawing: Transform(translation x y of the <use>); on the element: its
+   stroke width when it is stroked; for a viewport element the translation by
+   its own x / y, the clip rectangle (0, 0, width, height) unless overflow is
+   visible, the viewBox / preserveAspectRatio transform for that width and
+   height; then the content.  Model only. *)
+From Verif Require Import Base.F32 Geom.Matrix Geom.Shapes.
+Local Open Scope Q_scope.
+
+Inductive ovb := NoVb | SomeVb (x y w h : Q).
+Inductive osize := NoSize | Size (w h : Q).
+
+(* the referenced element *)
+Inductive utarget :=
+| TView (x y w h : Q) (vb : ovb) (p : par) (clip : bool) (content : list shape)   (* <svg> / <symbol> *)
+| TGroup (content : list shape)                                                    (* <g> *)
+| TShape (stroke : bool) (sw : oq) (s : shape).                                    (* a basic shape or path *)
+Inductive udef := UDef (id : N) (t : utarget).
+Inductive use_inst := UseI (id : N) (x y : Q) (size : osize) (stroke : bool) (sw : oq).
+
+(* backend calls *)
+Inductive use_op :=
+| UTrans (a b c d e f : Q)       (* State().Transform *)
+| ULineWidth (w : Q)             (* State().SetLineWidth *)
+| UShape (o : shape_op).         (* path construction; SRect also for the clip rectangle *)
+
+Fixpoint lookup_def (ds : list udef) (id : N) : option utarget :=
+  match ds with
+  | [] => None
+  | UDef k t :: r => if (k =? id)%N then Some t else lookup_def r id
+  end.
+
+(* the attributes of the copy the instance works on *)
+Definition view_size (own_w own_h : Q) (u : osize) : Q * Q :=
+  match u with Size w h => (w, h) | NoSize => (own_w, own_h) end.          (* elements.go:483-492 *)
+Definition cascaded_stroke (own use : bool) : bool := own || use.            (* elements.go:495-502 *)
+Definition cascaded_width (own use : oq) : Q :=
+  match own, use with
+  | SomeQ w, _ => w
+  | NoQ, SomeQ w => w
+  | NoQ, NoQ => 1                                                            (* tree.go:228-233 *)
+  end.
+
+(* paint.go:84-107: the line width is set when the node is stroked *)
+Definition stroke_ops (stroke : bool) (w : Q) : list use_op :=
+  if stroke && Qltb 0 w then [ULineWidth w] else [].
+
+Section UseInst.
+Variable ar : arith.
+Variable rc : Q -> Q.
+Variable cv : Z -> Z -> option Q.
+
+Fixpoint content_ops (l : list shape) : res (option (list use_op)) :=
+  match l with
+  | [] => Ok (Some [])
+  | s :: r => let* a := shape_ops_opt ar rc cv s in
+              match a with
+              | None => Ok None
+              | Some la => let* b := content_ops r in Ok (option_map (app (map UShape la)) b)
+              end
+  end.
+
+(* svg.draw (elements.go:301-327) on the copy *)
+Definition view_frame (x y w h : Q) (vb : ovb) (p : par) (clip : bool) : list use_op :=
+  let '(sx, sy, tx, ty) := match vb with
+                           | NoVb => (1, 1, 0, 0)
+                           | SomeVb a b c d => viewbox_transform ar p w h a b c d
+                           end in
+  UTrans 1 0 0 1 x y :: (if clip then [UShape (SRect 0 0 w h)] else []) ++ [UTrans sx 0 0 sy tx ty].
+
+Definition draw_target (t : utarget) (size : osize) (ustroke : bool) (usw : oq) : res (option (list use_op)) :=
+  match t with
+  | TView x y w h vb p clip content =>
+      let '(vw, vh) := view_size w h size in
+      let* c := content_ops content in
+      Ok (option_map (fun c => stroke_ops ustroke (cascaded_width NoQ usw) ++ view_frame x y vw vh vb p clip ++ c) c)
+  | TGroup content =>
+      let* c := content_ops content in
+      Ok (option_map (fun c => stroke_ops ustroke (cascaded_width NoQ usw) ++ c) c)
+  | TShape stroke sw s =>
+      let* c := content_ops [s] in
+      Ok (option_map (fun c => stroke_ops (cascaded_stroke stroke ustroke) (cascaded_width sw usw) ++ c) c)
+  end.
+
+(* one instance: a function of the definitions and of the <use> alone *)
+Definition draw_use (ds : list udef) (u : use_inst) : res (option (list use_op)) :=
+  let '(UseI id x y size stroke sw) := u in
+  match lookup_def ds id with
+  | None => Ok (Some [])                    (* elements.go:438-441, svg.go:610-612: no node at all *)
+  | Some t =>
+      let* c := draw_target t size stroke sw in
+      Ok (option_map (fun c => stroke_ops stroke (cascaded_width NoQ sw) ++ UTrans 1 0 0 1 x y :: c) c)
+  end.
+
+(* the document: the instances in order; the first error aborts *)
+Fixpoint seq_ops (l : list (res (option (list use_op)))) : res (option (list use_op)) :=
+  match l with
+  | [] => Ok (Some [])
+  | a :: r => let* x := a in
+              match x with
+              | None => Ok None
+              | Some lx => let* y := seq_ops r in Ok (option_map (app lx) y)
+              end
+  end.
+Definition draw_uses (ds : list udef) (us : list use_inst) : res (option (list use_op)) :=
+  seq_ops (map (draw_use ds) us).
+End UseInst.
